@@ -167,7 +167,9 @@ HandleUpdate(s, k, v, w) ==
 Insert(s0, k, v, w0) ==
     LET s == Prelude(s0)
         w == Weigh(s, w0)
-    IN IF s.map[k].p THEN HandleUpdate(s, k, v, w)
+    IN IF s.map[k].p
+       \* F13 repaired: an update that grew the entry restores the bound before insert returns
+       THEN (IF "F13" \in Dev THEN HandleUpdate(s, k, v, w) ELSE EvictLru(HandleUpdate(s, k, v, w)))
        ELSE HandleInsert([s EXCEPT !.map[k] = [p |-> TRUE, v |-> v, w |-> w,
                                                 la |-> None, lm |-> None]], k, w)
 
